@@ -671,4 +671,135 @@ Section Inv.
       apply cleanup_raise.
   Qed.
 
+  Lemma save_ok ops raises :
+    new = new_content ops ->
+    triple (L St_init) (save c ops raises) (fun _ => L St_done) ES (L Safe).
+  Proof.
+    intro Hn. unfold save. eapply t_bind; [apply setup_ok|]. intros ?; cbv beta.
+    intros w Hw. pose proof (body_ok ops raises w Hw) as Hb.
+    destruct (body ops raises w) as [[x|e|] w'].
+    - apply exit_false_ok. rewrite Hn. exact Hb.
+    - assert (T : triple (L Safe) (exit_ c true ;;; raise e) (fun _ : unit => L St_done) ES (L Safe)).
+      { eapply t_bind with (Q := QS); [apply exit_true_ok|]. intros ?; cbv beta. apply t_raise. auto. }
+      apply T. exact Hb.
+    - exact Hb.
+  Qed.
+
+  (* ---- what Safe means for an observer ---- *)
+  Lemma ocontent_refl x : ocontent_eqb x x = true.
+  Proof.
+    destruct x as [l|]; cbn; auto. induction l; cbn; auto. rewrite N.eqb_refl. auto.
+  Qed.
+
+  Definition view_ok (view : inode -> bytes) (s : fs) : Prop :=
+    dest_ok (option_map (fun i => view (f_ino s0 i)) (f_dir s0 dest) :: appear_contents sched) new
+            (option_map (fun i => view (f_ino s i)) (f_dir s dest)) = true.
+
+  Lemma appeared_in x view :
+    (view = i_vol \/ view = i_dur) -> appeared x -> existsb (ocontent_eqb (Some (view x))) (appear_contents sched) = true.
+  Proof.
+    intros Hv (k & cnt & m & Hin & ->). apply existsb_exists. exists (Some cnt). split.
+    - unfold appear_contents. apply in_flat_map. exists (k, AAppear cnt m). split; [exact Hin|]. cbn. auto.
+    - destruct Hv as [-> | ->]; apply ocontent_refl.
+  Qed.
+
+  Lemma safe_view view s f sc :
+    (view = i_vol \/ view = i_dur) -> Safe s f sc -> view_ok view s.
+  Proof.
+    intros Hv [((_ & Hold & _) & _) | (_ & (p & Hp & Hvol & Hdur) & _)]; unfold view_ok, dest_ok.
+    - unfold dest_old in Hold. destruct (f_dir s dest) as [j|] eqn:Ej.
+      + destruct Hold as [(H0 & Hi) | (H0 & Ha)].
+        * rewrite H0. cbn [option_map existsb]. rewrite Hi, ocontent_refl. reflexivity.
+        * cbn [option_map existsb]. rewrite (appeared_in _ view Hv Ha). now rewrite orb_true_r.
+      + rewrite Hold. cbn. reflexivity.
+    - rewrite Hp. cbn [option_map]. destruct Hv as [-> | ->]; [rewrite Hvol|rewrite Hdur];
+        rewrite ocontent_refl; apply orb_true_r.
+  Qed.
+
+  Lemma safe_calls s f sc : Safe s f sc -> sc_ok sc = true.
+  Proof. intros [(_ & H & _) | (_ & _ & _ & H & _)]; exact H. Qed.
+
+  Lemma init_holds umask crash :
+    wf s0 -> L St_init (init_world s0 umask dest crash sched).
+  Proof.
+    intro Hwf. split; [|auto]. split; [|auto]. split; [exact Hwf|]. split; [|exact I].
+    unfold dest_old. cbn. destruct (f_dir s0 dest); auto.
+  Qed.
+
 End Inv.
+
+(* ---- the statements about whole runs ---- *)
+Lemma run_safe c ops raises s0 umask crash sched :
+  c_dest c <> c_part c -> same_dir (c_part c) = true -> wf s0 ->
+  let r := run_save c ops raises s0 umask crash sched in
+  L c sched (Safe c s0 sched (new_content ops)) (snd r) /\
+  (forall x, fst r = Val x -> L c sched (St_done c (new_content ops)) (snd r)).
+Proof.
+  intros Hdp Hpd Hwf r. unfold r, run_save.
+  pose proof (save_ok c s0 sched Hdp Hpd (new_content ops) ops raises eq_refl
+                      (init_world s0 umask (c_dest c) crash sched)
+                      (init_holds c s0 sched umask crash Hwf)) as H.
+  destruct (save c ops raises (init_world s0 umask (c_dest c) crash sched)) as [[x|e|] w]; cbn [fst snd].
+  - split; [apply (done_safe c s0 sched); exact H|]. intros; exact H.
+  - split; [exact H|]. discriminate.
+  - split; [exact H|]. discriminate.
+Qed.
+
+Lemma wf_fs_of_list l : wf (fs_of_list l).
+Proof.
+  induction l as [|[n [cnt m]] r IH]; cbn [fs_of_list].
+  - intros n i. cbn. discriminate.
+  - intros x i. unfold fs_create. cbn [f_dir f_next]. unfold upd. destruct (Nat.eqb x n).
+    + intro H; inversion H; lia.
+    + intro H. apply IH in H. lia.
+Qed.
+
+Definition completed (o : outcome unit) : bool := match o with Val _ => true | _ => false end.
+
+Lemma crash_safe_lemma c ops raises s0 umask crash sched o w :
+  c_dest c <> c_part c -> same_dir (c_part c) = true -> wf s0 ->
+  run_save c ops raises s0 umask crash sched = (o, w) ->
+  dest_ok (content_kill s0 (c_dest c) :: appear_contents sched) (new_content ops)
+          (content_kill (w_fs w) (c_dest c)) = true /\
+  dest_ok (content_power s0 (c_dest c) :: appear_contents sched) (new_content ops)
+          (content_power (w_fs w) (c_dest c)) = true.
+Proof.
+  intros Hdp Hpd Hwf Hr.
+  destruct (run_safe c ops raises s0 umask crash sched Hdp Hpd Hwf) as [(Hs & _) _].
+  rewrite Hr in Hs. cbn [snd] in Hs. split.
+  - pose proof (safe_view c s0 sched (new_content ops) i_vol _ _ _ (or_introl eq_refl) Hs) as V.
+    unfold view_ok in V. unfold content_kill.
+    destruct (f_dir s0 (c_dest c)); destruct (f_dir (w_fs w) (c_dest c)); exact V.
+  - pose proof (safe_view c s0 sched (new_content ops) i_dur _ _ _ (or_intror eq_refl) Hs) as V.
+    unfold view_ok in V. unfold content_power.
+    destruct (f_dir s0 (c_dest c)); destruct (f_dir (w_fs w) (c_dest c)); exact V.
+Qed.
+
+Lemma calls_lemma c ops raises s0 umask crash sched o w :
+  c_dest c <> c_part c -> same_dir (c_part c) = true -> wf s0 ->
+  run_save c ops raises s0 umask crash sched = (o, w) ->
+  calls_ok (c_dest c) (map call_of (rev (w_trace w))) (completed o) = true.
+Proof.
+  intros Hdp Hpd Hwf Hr.
+  destruct (run_safe c ops raises s0 umask crash sched Hdp Hpd Hwf) as [(Hs & _) Hd].
+  rewrite Hr in Hs, Hd. cbn [fst snd] in Hs, Hd.
+  unfold calls_ok. rewrite scan_of_rev. fold (scan_of c w).
+  rewrite (safe_calls c s0 sched (new_content ops) _ _ _ Hs). cbn [andb].
+  destruct o as [x|e|]; cbn [completed negb orb]; auto.
+  destruct (Hd x eq_refl) as (((_ & _ & _ & _ & Hp) & _) & _). exact Hp.
+Qed.
+
+Lemma normal_exit_lemma c ops raises s0 umask crash sched x w :
+  c_dest c <> c_part c -> same_dir (c_part c) = true -> wf s0 ->
+  run_save c ops raises s0 umask crash sched = (Val x, w) ->
+  normal_exit_ok (new_content ops) (content_kill (w_fs w) (c_dest c))
+                 (match f_dir (w_fs w) (c_part c) with Some _ => true | None => false end) = true /\
+  content_power (w_fs w) (c_dest c) = Some (new_content ops).
+Proof.
+  intros Hdp Hpd Hwf Hr.
+  destruct (run_safe c ops raises s0 umask crash sched Hdp Hpd Hwf) as [_ Hd].
+  rewrite Hr in Hd. cbn [fst snd] in Hd.
+  destruct (Hd x eq_refl) as (((_ & (p & Hp & Hv & Hdu) & _) & Hpart) & _).
+  unfold normal_exit_ok, content_kill, content_power. rewrite Hp, Hpart, Hv, Hdu.
+  rewrite ocontent_refl. auto.
+Qed.
